@@ -74,7 +74,7 @@ var properties = map[string][]harnessSpec{
 		{Name: "chord.VerifC16UserDict", Quick: map[string]int{"C16.maxUser": 2}, Thorough: map[string]int{"C16.maxUser": 3}, Marks: []string{"end", "rejected", "accepted"}, MustTerminate: true},
 	},
 	"C05": {
-		{Name: "astconv.VerifC05RoundTrip", Marks: []string{"end", "needs-double-accidental", "degree-text-rejected"}},
+		{Name: "astconv.VerifC05RoundTrip", Marks: []string{"end", "needs-double-accidental"}},
 		{Name: "astconv.VerifC05KeyChange", Marks: []string{"end", "carrier-rejected"}},
 		{Name: "astconv.VerifC05Classifier", Quick: map[string]int{"C05.maxChords": 2, "C05.preemptions": 1}, Thorough: map[string]int{"C05.maxChords": 3, "C05.preemptions": 2}, Marks: []string{"end", "classified", "refused"}},
 		{Name: "play.VerifC05Transpose", Quick: map[string]int{"C05.maxDegree": 9}, Thorough: map[string]int{"C05.maxDegree": 15}, Marks: []string{"end", "rejected"}},
